@@ -184,6 +184,12 @@ func c03Probes(ref *rm.Schema, level int) []dbx.Txn {
 				ks := uni[1].Keys()
 				args = append(args, rm.MapOf(ks[0], uni[3].Map[uni[3].Keys()[1]]))
 			}
+			if c.Scalar() && c.KeyT == "real" && len(c.Enum) == 0 {
+				// arguments close to the stored values (less than 1 apart), and so far away that a difference overflows an int64
+				for _, f := range []float64{1.25, 1.75, -1.5, 0.5, -0.25, 1e19, -1e19} {
+					args = append(args, rm.SetOf(rm.R(f)))
+				}
+			}
 			for ai, arg := range args {
 				where := []rm.Cond{{Col: cn, Fn: fn, Val: arg}}
 				cl := fmt.Sprintf("cond.%s.%s.arg%d", fn, shapeClass(c), ai)
